@@ -49,6 +49,27 @@ checks = {
  "C20": dict(engine="E", cat="exploration", tech=E + " on a real scratch directory",
    text="round trip for subsets of a 10-path universe x 5 filters x recursive flag (thorough: all 1024 subsets); confinement for every archive of <=2(3) entries from 13 adversarial names with a before/after snapshot three directory levels above the destination",
    note="no symlink entries; real file system under a mktemp directory that is removed afterwards"),
+ "C02": dict(engine="S", cat="model_checking", tech=S + "; linearizability of every recorded history decided by porcupine",
+   text="every program assignment of 2-3 threads x 1-2 Storage operations (Create/Get/Put/CasByVersion/Delete/PutMany/GetMany) from the empty and a pre-loaded store; in-memory: every schedule within P<=3 with points at the mutex and at every statement executed without the mutex; Redis: every interleaving of the clients' Redis commands against miniredis; oracle: documented outcomes only, write<->version bijection (freshness), per-key linearizability, final read-all",
+   note="Redis atomicity is explored at command granularity (the granularity at which SETNX/WATCH protect); miniredis is trusted to execute single commands atomically like Redis; go-redis internals run uninstrumented inside one scheduling step"),
+ "C04": dict(engine="S", cat="model_checking", tech=S,
+   text="every schedule within P<=2 (thorough 3) of 2-3 worker programs over Lock/TryLock/LockWithCtx+canceller/cancelled ctx/two attempts/hold across a renewal, plus a Shutdown pseudo thread; oracles: no deadlock with a blocked worker (lost wake-up), cancelled attempts return ctx.Err(), at the end the lock record is gone, the in-memory waiter table is empty and every Locker can be re-acquired, nothing acquires after Shutdown returned",
+   note="liveness is judged as 'not blocked at quiescence' (no fairness assumption is needed: the SUT has no spin loops on the in-memory storage); weaker reading of 'after Shutdown': attempts invoked after Shutdown() returned"),
+ "C05": dict(engine="S", cat="model_checking", tech=S + " with a virtual clock (maximal progress)",
+   text="three scenario families on the virtual clock for leases 30ms/10s/100s: lease kept over 3.5 leases with a contender and a prober (every renewal call may be lost, request or reply, F<=1); holder death at 6 scripted phases and at any scheduling point, contender must hold the lock within lease + one renewal period; Unlock exactly at the renewal instant followed by a second tenure, at most one stale renewal reaches the storage, none succeeds, timers and timer goroutines wind down",
+   note="in-memory storage (after the expiry repairs); one known finding: a renewal whose reply is lost ends the renewal chain (needs an owner token; recorded in known_findings.txt); P<=2 on long executions"),
+ "C07": dict(engine="S", cat="model_checking", tech=S + "; justification of every return value decided by porcupine (Wait and Cancel as model operations)",
+   text="1-3 waiters (current/stale/never-issued version, late waiters that read the version first) x per-waiter canceller pseudo threads x every mutator sequence of <=3 operations, every schedule within P<=2 (thorough 3); oracles: return values justified at some instant of the call, no blocked waiter with a reason to return at quiescence, released waiters return the context error, waiter table empty at the end; Redis polling waiter on the virtual clock",
+   note="promptness is judged at quiescence (cooperative scheduler: 'eventually when scheduled'); Redis part is small (polling loop) and runs with P<=1"),
+ "C09": dict(engine="S", cat="model_checking", tech=S + "; linearizability against a sequential LRU decided by porcupine",
+   text="2-3 threads x 1-2 operations over GetOrCreate(a|b)/Remove/Clear, capacities 1..3, create callback with a scheduling point and a free choice succeed/fail, every schedule within the preemption bound with points at the cache mutex, the in-flight wait and inside callbacks; oracles: single-flight counter, linearizability incl. created flag and per-call delete callbacks, create/delete ledger after a final Clear, capacity, in-flight table and list empty at the end",
+   note="delete callbacks contain no scheduling point (they run under the cache mutex); data races are outside a cooperative scheduler"),
+ "C12": dict(engine="S", cat="model_checking", tech=S + " with an adversarial virtual clock (clock deviations bounded by K)",
+   text="scripts of 1-3(4) futures with delays -1ms/0/1ms/5ms (equal deadlines included), cancel plans none/now/at the fire instant/after firing/twice, 1-2 callers, pool limit 1-2, busy callbacks; every schedule within P and K with points at the package mutex, wake channel, timers, worker spawn and every statement outside the mutex; oracle on the virtual clock: never early, at most once, no start after an early Cancel, uncancelled futures start exactly once, heap indices consistent",
+   note="time is virtual: 'early' is judged against the virtual clock read before Call; the +1ns-per-read clock is an artefact that keeps strict After() comparisons progressing"),
+ "C13": dict(engine="S", cat="model_checking", tech=S + " with a maximal-progress virtual clock",
+   text="every arrival pattern of <=3(4) events over far/near/burst/cancel-head/idle gap/arrival exactly at a worker's exit, 1-2 callers, pool limit 1-3, idle timeout 5ms/30s, every schedule within P<=2 incl. statement-level points; oracle: every live future starts exactly once within 1us of its fire time, package winds down to zero workers and goroutines with nothing pending, restarts on the next Call",
+   note="lateness bound assumes callbacks return at once and CPU is available (maximal-progress clock), as the property states"),
 }
 
 wip = {}
